@@ -280,7 +280,7 @@ def gen_derive(ctx, ver, actor):
 def gen_use(ctx, ver, actor):
     r = ctx.rng
     kind = r.choice(['Encrypt', 'Decrypt', 'Sign', 'SignatureVerify', 'MAC'])
-    if kind in ('Encrypt', 'Decrypt') and ver >= (1, 4) and \
+    if kind in ('Encrypt', 'Decrypt') and ver >= (1, 2) and \
             r.random() < 0.25:
         # authenticated encryption (GCM): tag / additional data
         o = ctx.pick_obj(['SymmetricKey'], 0.1, state='Active',
@@ -290,9 +290,11 @@ def gen_use(ctx, ver, actor):
                      'tag_len': r.choice([16, 16, 12, None])},
               'data': ctx.rbytes(r.choice([0, 16, 33])),
               'iv': ctx.rbytes(r.choice([12, 12, 16, 1]))}
-        if r.random() < 0.5:
+        # additional data and tag are request fields of KMIP 1.4; the
+        # mode itself (and so a computed tag) exists from 1.2 on
+        if ver >= (1, 4) and r.random() < 0.5:
             op['aad'] = ctx.rbytes(r.choice([1, 20]))
-        if kind == 'Decrypt' and r.random() < 0.9:
+        if ver >= (1, 4) and kind == 'Decrypt' and r.random() < 0.9:
             op['tag'] = ctx.rbytes(r.choice([16, 12, 4]))
         return op
     if kind in ('Encrypt', 'Decrypt'):
